@@ -39,6 +39,7 @@ var variants = []string{tk.Tink, tk.Crunchy, tk.Legacy, tk.NoPrefix}
 type sigCase struct {
 	scheme  string // ECDSA, ED25519, RSAPKCS1, RSAPSS
 	params  string // curve/hash/encoding or modulus/hash/salt
+	cls     string // histogram class of the parameters (defaults to params)
 	variant string
 	id      uint32
 	route   string
@@ -64,7 +65,11 @@ func (c *sigCase) String() string {
 }
 
 func (c *sigCase) class() string {
-	return fmt.Sprintf("%s/%s/%s/%s", c.scheme, c.params, c.variant, c.route)
+	p := c.cls
+	if p == "" {
+		p = c.params
+	}
+	return fmt.Sprintf("%s/%s/%s/%s", c.scheme, p, c.variant, c.route)
 }
 
 func cat(parts ...[]byte) []byte { return bytes.Join(parts, nil) }
